@@ -134,6 +134,9 @@ type ParamsOp struct {
 	// deposit parameters: only the C14 profile changes them (DESIGN §4 F12, §10.6)
 	MinDeposit         int64 `json:"min_deposit,omitempty"`
 	MinDepositMultiple int64 `json:"min_deposit_multiple,omitempty"`
+	// MinDepositDenom: a minimum deposit in another denomination than the base one (legal for the parameter; only the
+	// C20 profile uses it, no money oracle is armed there)
+	MinDepositDenom string `json:"min_deposit_denom,omitempty"`
 }
 
 // ---- address references ---------------------------------------------------------------------
